@@ -70,6 +70,11 @@ def run(pid, tier, seed):
     extra.append({"cls": "relu", "bits": b, "int": 1, "kn": 0, "sym": 0, "sl": sl, "al": [1, 0], "clip": "q",
                   "ub": [0, 0], "al_none": True})
   cfgs += extra
+  # histories: the same configuration reached by re-assigning bits/integer on a quantizer that was already built and
+  # called with another format (what QAdaptiveActivation does every step) must behave like a fresh one
+  hist = [dict(c, hist="reassign") for j, c in enumerate(cfgs)
+          if c["cls"] in ("bits", "relu") and c.get("al_none") and j % 3 == seed % 3]
+  cfgs += hist
   root = scratch_root()
   cpath = os.path.join(root, "fixed_cfgs.json")
   json.dump(cfgs, open(cpath, "w"))
